@@ -22,6 +22,7 @@ THEOREMS = [
     "reopen_fails_view_witness", "reopen_fails_stale_dv_witness", "reopen_refines_full_unsound",
     "reopen_idempotent", "reopen_cycles", "ids_fresh_after_reopen_partial", "ids_fresh_full_unsound",
     "stale_dv_hides_new_rows",
+    "history_reaches_invariant", "reopen_refines", "reopen_accepts_ops",
 ]
 WEIGHTS = {"insert": 28, "delete": 14, "compact": 9, "vacuum": 4, "reopen": 17, "create": 10, "drop": 8,
            "view": 5, "index": 5}
